@@ -46,7 +46,8 @@ def run(chk, quick, rnd):
             xcheck.append((len(cases) - 3, len(cases), pw, s2, s4, rounds))
         text = content(["ascii", "utf8"][k % 2], plen, rnd).decode()
         add(dict(fmt="nthash", pw=list(text.encode("utf-16-le"))), kind="nthash", pw=text)
-        user = content("ascii", [1, 5, 20][k % 3], rnd).decode()
+        # user names: ASCII, and names whose lower-case form is not their case-folded form (sharp s, final sigma, ligatures, dotted I)
+        user = [content("ascii", [1, 5, 20][k % 3], rnd).decode(), "Strau\xdf", "\u039f\u0394\u03a5\u03a3\u03a3\u0395\u038e\u03a3", "\ufb01ona", "Administrator"][k % 5]
         add(dict(fmt="msdcc", pw=list(text.encode("utf-16-le")), user=list(user.lower().encode("utf-16-le"))), kind="msdcc", pw=text, user=user)
         add(dict(fmt="mysql323", pw=list(pw)), kind="mysql323", pw=pw)
         add(dict(fmt="nthash", pw=list(pw)), kind="hex_md4", pw=pw)
